@@ -26,9 +26,13 @@ from common import err_kind
 from props import c03_flavours as FL
 from props import c03_calls as CL
 from props import c03_raise as RX
+from props import c03_tr as TR
 
 ID = "C03"
-RULE = ("random histories (length 3..14 quick, ..40 thorough) over a pool of finite / periodic Streams, "
+RULE = ("translator: lean/ALV/Gen/C03Src.lean regenerated from lazy_stream.py before the build (a body outside the accepted "
+        "subset or a body whose interpretation is no longer the model = broken obligation), translator self test on edited "
+        "source texts; then: "
+        "random histories (length 3..14 quick, ..40 thorough) over a pool of finite / periodic Streams, "
         "copies, tee outputs and thubs; counts chosen relative to the remaining length (None, negative, 0, "
         "within, equal, beyond, x.5 / other floats, inf, -inf, nan); every history ends by draining every live "
         "object; plus exhaustive short histories.  Entry `hist`: the same histories with the caller's side — "
@@ -52,6 +56,24 @@ RULE = ("random histories (length 3..14 quick, ..40 thorough) over a pool of fin
         "elementwise attribute / call forms), read on after every exception, with and without copies / peek.  A history is "
         "non-trivial when at least one step returned items; distinct = distinct JSON")
 TRUSTED = [
+    "translator harness/props/c03_tr.py (ast of audiolazy/lazy_stream.py -> lean/ALV/Gen/C03Src.lean, rewritten on every run): "
+    "the bodies of Stream.take / copy / peek / skip / limit / append / map / filter and of StreamTeeHub.take / copy / __iter__ / "
+    "limit / skip / append / map / filter are no longer hand-modelled: src_step_is_model proves that the model's step function is "
+    "the interpretation (ALV.C03.Src.stepP, lean/ALV/Model/C03Src.lean) of the regenerated programs.  Trusted there: (1) the "
+    "Python subset the translator accepts is read as Python reads it — statements run in order, `if c: return` / `if c: n = e` "
+    "with no else, `a and b` short-circuits, a conditional expression evaluates one branch, `a, b = it.tee(x)` binds two "
+    "locals, assignment to self._data (hub copy: self._iters[0]) rebinds the one data slot; anything outside the subset is a "
+    "TranslationError, never skipped; (2) the vocabulary mapping of the interpreter: isinf / `>` / isinstance(., float) / "
+    "round (half to even; OverflowError, ValueError, TypeError for inf, nan, None) / int / max over the count domain Cnt, "
+    "lazy_misc.rint on positive floats = rintPos (rint itself is not translated), it.islice = limiter (count must be an int, "
+    "checked at the call), it.chain / xmap / xfilter = chain / map / filter terms, it.tee = teeOf, next(self._data) / "
+    "constructor(self._data) / constructor(it.islice(self._data, k)) = the three take modes, the nested generator of skip "
+    "is recognised as a fixed template (xrange(count) loop of `try: next(p) except StopIteration: return`, then "
+    "`for v in p: yield v`) and mapped to the skipper term with a lazily evaluated count, `Stream(self).m(args)` of a hub "
+    "override = the model's `target`; (3) the object plumbing around the bodies (pool, target, rebind, mkSrc) and the "
+    "operations new / next / drain / thub / tee stay hand-written on both sides of src_step_is_model.  The translator is "
+    "cross-checked by its self test (16 edited source texts must translate differently or not at all, 3 harmless rewrites "
+    "identically, the unchanged text reproduces the committed file) and, as before, by the differential histories",
     "hand-written Lean model ALV/Model/C03.lean of lazy_stream.Stream/StreamTeeHub/thub and lazy_itertools.tee "
     "(modelled, not verified: itertools.tee/chain/cycle/repeat, map/filter builtins, list iterators, the generator "
     "protocol with the pre-PEP-479 reading of next() inside a generator)",
@@ -126,10 +148,18 @@ MANIFEST = {
             "an event-list model (raise_next, raise_take, raise_history without copies; raise_free_is_list_model; "
             "raise_tee_once) and, with copies / peek, a specification of event lists plus shared sequences "
             "(raise_history_with_copies, raise_step_with_copies, raise_copies_conservative, raise_shared_once: an exception "
-            "of a shared sequence is delivered once, items to every copy); skip_refused_lazy, skip_refused_kinds",
+            "of a shared sequence is delivered once, items to every copy); skip_refused_lazy, skip_refused_kinds; the step "
+            "function all of this is about is the interpretation of the method bodies as regenerated from the source on every "
+            "run (src_step_is_model; per method src_take_is_model, src_take_mode_is_model, src_copy_is_model, src_peek_is_model, "
+            "src_skip_is_model, src_limit_is_model, src_append_is_model, src_map_is_model, src_filter_is_model, "
+            "src_hub_copy_is_model, src_hub_methods_are_model; src_signatures_are_model)",
     "note": "defect D1 (take/peek/limit/skip past the end raise RuntimeError under PEP 479) is recorded as known "
             "with four signatures; proposed_fixes/D1-take-past-end.diff repairs it (check then prints no finding)",
-    "technique": "Lean 4 refinement proof (hub invariant buf ++ den parent = original, fuel-indexed next; caller "
+    "technique": "translator harness/props/c03_tr.py: the bodies of 16 Stream / StreamTeeHub methods are read from "
+                 "audiolazy/lazy_stream.py with ast on every run and emitted as programs of a deep embedding "
+                 "(lean/ALV/Gen/C03Src.lean); the model's step function is proved equal to their interpretation "
+                 "(src_step_is_model), so the refinement theorems are re-checked against what the source says now; + "
+                 "Lean 4 refinement proof (hub invariant buf ++ den parent = original, fuel-indexed next; caller "
                  "containers as a second heap of values; for periodic sources the denotation is an eventually "
                  "periodic sequence up to re-folding of the period: soundness by induction on the fuel, termination by "
                  "induction on hub depth / term size / distance to the next item that passes a filter) + step-by-step differential histories impl vs model vs "
@@ -1453,7 +1483,48 @@ def request(case):
     return case
 
 
+def regenerate(eng=None):
+    """translator (harness/props/c03_tr.py): lean/ALV/Gen/C03Src.lean is rewritten from audiolazy/lazy_stream.py"""
+    return TR.regenerate(eng)
+
+
+def _translator_checks(eng):
+    import os, subprocess
+    rel = "lean/" + TR.GEN_REL.replace(os.sep, "/")
+    good = subprocess.run(["git", "-C", common.VERIF, "show", "HEAD:" + rel], capture_output=True, text=True, timeout=30)
+    committed = good.stdout if good.returncode == 0 and good.stdout else None
+    try:
+        text = TR.read_source()
+    except Exception as e:
+        yield ("translator-selftest", False, "source not readable: %r" % (e,))
+        return
+    for item in TR.selftest(text, committed):
+        yield item
+    try:
+        progs, sigs = TR.parse(text)
+        done = ["Stream." + m for m in TR.STREAM_METHODS] + ["StreamTeeHub." + m for m in TR.HUB_DEFS + TR.HUB_LAMBDAS]
+    except Exception as e:
+        done = "translation failed: %s" % e
+    eng.extra["translated"] = {
+        "translator": "harness/props/c03_tr.py -> " + rel + " (deep embedding ALV.C03.Src.Body / HubBody, interpreter "
+                      "ALV.C03.Src.stepP in lean/ALV/Model/C03Src.lean)",
+        "under_translator": done,
+        "theorems": ["src_take_mode_is_model", "src_take_is_model", "src_copy_is_model", "src_hub_copy_is_model",
+                     "src_peek_is_model", "src_skip_is_model", "src_limit_is_model", "src_append_is_model",
+                     "src_map_is_model", "src_filter_is_model", "src_hub_methods_are_model", "src_step_is_model",
+                     "src_signatures_are_model"],
+        "not_translated": TR.NOT_TRANSLATED,
+    }
+
+
 def extra_checks(eng):
+    for item in _translator_checks(eng):
+        yield item
+    for item in _del_checks(eng):
+        yield item
+
+
+def _del_checks(eng):
     """StreamTeeHub.__del__ (an object-lifetime effect, outside the Lean model): a hub that dies with k unused
     copies warns once, naming k, and lets them go; a hub whose copies were all used is silent"""
     from audiolazy import Stream, thub
